@@ -137,3 +137,37 @@ class YamlIOFault:
         import pathlib
         pathlib.Path.open = self._orig
         return False
+
+
+class YamlReadFault:
+    """OSError on the k-th time pyrates.frontend.fileio.yaml opens a template file for READING (a module-attribute seam:
+    the module's `open` global shadows the builtin)"""
+
+    def __init__(self, nth=1, err='EIO'):
+        self.nth, self.err = nth, err
+        self.calls = 0
+        self.fired = 0
+
+    def _open(self, path, mode='r', *a, **k):
+        if 'r' in mode and 'w' not in mode:
+            self.calls += 1
+            if self.calls == self.nth:
+                self.fired += 1
+                code = getattr(errno, self.err)
+                raise OSError(code, os.strerror(code), str(path))
+        return builtins.open(path, mode, *a, **k)
+
+    def __enter__(self):
+        import pyrates.frontend.fileio.yaml as ym
+        self._ym = ym
+        self._had = 'open' in ym.__dict__
+        self._saved = ym.__dict__.get('open')
+        ym.open = self._open
+        return self
+
+    def __exit__(self, *exc):
+        if self._had:
+            self._ym.open = self._saved
+        else:
+            self._ym.__dict__.pop('open', None)
+        return False
